@@ -1,4 +1,5 @@
 import LitexModel.Fhdl.FitsStmt
+import LitexModel.Fhdl.Lower
 /-
   C01 — token-level (prefix notation) readers for the trees exchanged with the harness, and structural
   comparison of Verilog trees with a path to the first difference.  Used by `Driver/C01.lean` only; nothing
@@ -21,6 +22,28 @@ def parseVBin : String → Option VBin
   | "and" => some .and | "xor" => some .xor | "or" => some .or
   | "lt" => some .lt | "le" => some .le | "eq" => some .eq | "ne" => some .ne | "gt" => some .gt | "ge" => some .ge
   | _ => none
+
+def showOp2 : Op2 → String
+  | .add => "add" | .sub => "sub" | .mul => "mul" | .shl => "shl" | .shr => "shr"
+  | .and => "and" | .xor => "xor" | .or => "or"
+  | .lt => "lt" | .le => "le" | .eq => "eq" | .ne => "ne" | .gt => "gt" | .ge => "ge"
+
+mutual
+/-- Inverse of `parseFE` (same token format as harness/c01lib.ser_expr). -/
+partial def showE : Expr → String
+  | .const v w s => s!"C {v} {w} {if s then 1 else 0}"
+  | .sig i w s => s!"S {i} {w} {if s then 1 else 0}"
+  | .op1 .neg a => "U neg " ++ showE a
+  | .op1 .not a => "U not " ++ showE a
+  | .op2 o a b => s!"B {showOp2 o} {showE a} {showE b}"
+  | .mux c a b => s!"M {showE c} {showE a} {showE b}"
+  | .slice a lo hi => s!"L {lo} {hi} {showE a}"
+  | .cat l => s!"K {l.length}" ++ showEs l
+  | .rep a n => s!"R {n} {showE a}"
+partial def showEs : List Expr → String
+  | [] => ""
+  | e :: es => " " ++ showE e ++ showEs es
+end
 
 def parseBool : String → Option Bool
   | "0" => some false | "1" => some true | _ => none
